@@ -99,6 +99,95 @@ func ruleBytewiseShortening(p *Prog, r *Report, rule string) {
 		not255 := cmpAtom("b[i]!=0xff", token.NEQ, func(v ssa.Value) bool {
 			return elemOf("b")(v) || func() bool { _, ok := stripConv(v).(*ssa.UnOp); return ok }()
 		}, mConstInt(255))
+		// construction: the result keeps the prefix in front of the incremented byte — it is
+		// b[:i+1] with its last byte incremented, or b[:i] followed by b[i]+1. (Dropping the prefix
+		// gives a key that sorts BEFORE b whenever b starts with 0xff bytes: the index entry of the
+		// table's last block then precedes the keys stored in it.)
+		r.Site(1)
+		okShape := false
+		detail := "no non-nil return built by append"
+		// the index at which b's elements are examined (the `i` of the scan)
+		var idxVal ssa.Value
+		instrs(fn, func(_ *ssa.BasicBlock, _ int, in ssa.Instruction) {
+			if ia, ok := in.(*ssa.IndexAddr); ok && mParam("b")(ia.X) && idxVal == nil {
+				idxVal = stripConv(ia.Index)
+			}
+		})
+		instrs(fn, func(_ *ssa.BasicBlock, _ int, in ssa.Instruction) {
+			ret, ok := in.(*ssa.Return)
+			if !ok || len(ret.Results) != 1 || isNilConst(ret.Results[0]) {
+				return
+			}
+			// walk the append chain back to dst
+			type piece struct {
+				kind string // "prefix:i", "prefix:i+1", "byte:elem+1", "other"
+			}
+			var pieces []piece
+			v := stripConv(ret.Results[0])
+			for depth := 0; depth < 6; depth++ {
+				c, isC := v.(*ssa.Call)
+				if !isC || !isCallTo(c, "builtin:append") {
+					break
+				}
+				arg := stripConv(c.Call.Args[1])
+				pk := piece{"other"}
+				if sl, isSl := arg.(*ssa.Slice); isSl {
+					if mParam("b")(sl.X) && sl.Low == nil && sl.High != nil {
+						hi := stripConv(sl.High)
+						if idxVal != nil && hi == idxVal {
+							pk.kind = "prefix:i"
+						} else if bo, isB := isBin(hi, token.ADD); isB && mConstInt(1)(bo.Y) && idxVal != nil && stripConv(bo.X) == idxVal {
+							pk.kind = "prefix:i+1"
+						}
+					} else if al, isAl := sl.X.(*ssa.Alloc); isAl {
+						// varargs array: its element
+						for _, ref := range *al.Referrers() {
+							if ia, isIA := ref.(*ssa.IndexAddr); isIA {
+								for _, r2 := range *ia.Referrers() {
+									if st, isSt := r2.(*ssa.Store); isSt && st.Addr == ia {
+										if plus1(func(x ssa.Value) bool {
+											return elemOf("b")(x) || func() bool { _, isU := stripConv(x).(*ssa.UnOp); return isU }() || func() bool { _, isE := stripConv(x).(*ssa.Extract); return isE }()
+										})(st.Val) {
+											pk.kind = "byte:elem+1"
+										}
+									}
+								}
+							}
+						}
+					}
+				}
+				pieces = append([]piece{pk}, pieces...)
+				v = stripConv(c.Call.Args[0])
+			}
+			ks := ""
+			for _, pc := range pieces {
+				ks += pc.kind + ","
+			}
+			switch ks {
+			case "prefix:i+1,":
+				// needs the increment of the last byte
+				inc := false
+				instrs(fn, func(_ *ssa.BasicBlock, _ int, in2 ssa.Instruction) {
+					if st, isSt := in2.(*ssa.Store); isSt {
+						if bo, isB := isBin(stripConv(st.Val), token.ADD); isB && mConstInt(1)(bo.Y) {
+							if _, isIA := st.Addr.(*ssa.IndexAddr); isIA {
+								inc = true
+							}
+						}
+					}
+				})
+				if inc {
+					okShape = true
+				} else {
+					detail = "b[:i+1] is appended but its last byte is not incremented"
+				}
+			case "prefix:i,byte:elem+1,":
+				okShape = true
+			default:
+				detail = "the result is built from [" + ks + "]: the bytes in front of the incremented one are not kept"
+			}
+		})
+		r.Check(okShape, fnName(fn), "successor-keeps-prefix", "the successor is b[:i+1] with its last byte incremented (or b[:i] followed by b[i]+1)", detail, p.Pos(fn.Pos()))
 		checkGuard(p, r, GuardSpec{Rule: "successor-no-wrap", Fn: fn, Target: retNonNil, TargetDesc: "returning a shortened successor", Atoms: []Atom{not255}, G: func(a []bool) bool { return a[0] }, GDesc: "the incremented byte is not 0xff", MinTargets: 1})
 	}
 }
